@@ -8,6 +8,8 @@ A scenario is a plain dict (JSON-able):
     key     iterate .items() instead of values (dataset entries only)
     stop    ['exhaust'] | ['close', k] | ['drop', k] | ['throw', k]
     path    None | a consumption path of vlib/vias.py (dataset entries only)
+    neighbour  other parallel datasets with other settings are alive meanwhile
+    dual    a second iterator over the same dataset object, in lock step
     faults  {'src': {pos: kind}, 'fn': {pos: kind}}   kind: value|user|filter|base
     catch   None | 'true' | 'user' | 'tuple' | 'exception'
 Events (thread, what, ...): pull i, start i, end i, deliver v, exhausted,
@@ -72,7 +74,9 @@ def catch_arg(name, ld):
     if name is None:
         return None
     return {'true': True, 'user': UserExc, 'tuple': (UserExc, ld.core.FilterException),
-            'exception': Exception}[name]
+            'exception': Exception,
+            # catching switched off explicitly
+            'false': False}[name]
 
 
 def caught(kind, catch, ld):
@@ -80,6 +84,8 @@ def caught(kind, catch, ld):
     if catch is None:
         return False
     sel = catch_arg(catch, ld)
+    if sel is False:
+        return False
     if sel is True:
         sel = ld.core.FilterException
     return issubclass(exc_for(kind, ld), sel)
@@ -132,6 +138,10 @@ class SchedWorld:
         S.block_until(lambda: not [t for t in S.enabled() if t.name != 'main'],
                       'quiesce')
         return [(t.name, t.desc) for t in S.threads if not t.done and t.name != 'main']
+
+
+def _nb_fn(x):
+    return x
 
 
 def make_body(sc, e, raised_objs):
@@ -213,9 +223,11 @@ def make_body(sc, e, raised_objs):
             ds = base.map(src_fn)
             try:
                 if entry == 'pf1':
-                    ds = ds.map(fn).prefetch(1, b, catch_filter_exception=catch)
+                    ds = ds.map(fn).prefetch(1, b, 't', catch) if n % 2 else \
+                        ds.map(fn).prefetch(1, b, catch_filter_exception=catch)
                 elif entry == 'pft':
-                    ds = ds.map(fn).prefetch(w, b, 't', catch_filter_exception=catch)
+                    ds = ds.map(fn).prefetch(w, b, 't', catch) if n % 2 else \
+                        ds.map(fn).prefetch(w, b, 't', catch_filter_exception=catch)
                 elif entry == 'parmap':
                     ds = ds.map(fn, num_workers=w, buffer_size=b, backend='t')
                 elif entry == 'chain':
@@ -228,6 +240,18 @@ def make_body(sc, e, raised_objs):
                     # prefetching stage has to survive that
                     from .vias import through
                     ds = through(ld, ds, sc['path'])
+                if sc.get('neighbour'):
+                    # other prefetching / parallel-mapping datasets with other
+                    # settings are built AFTER the one under test and stay
+                    # alive while it is iterated (settings kept per class or
+                    # per module instead of per object would be theirs now)
+                    nb = base.map(_nb_fn)
+                    neighbours = [nb.prefetch(w + 2, b + 61, 't'),
+                                  nb.map(_nb_fn, num_workers=w + 1, buffer_size=b + 40,
+                                         backend='t'),
+                                  nb.prefetch(1, b + 17),
+                                  nb.prefetch(w + 1, b + 9, 't',
+                                              catch_filter_exception=Exception)]
             except S.STOP:
                 raise
             except BaseException as exc:
